@@ -3,7 +3,8 @@
 (* Bounded exhaustive enumeration of extension descriptors for C08.        *)
 (* One state = one descriptor (configuration grid: the scenario is the     *)
 (* initial state).  Every built-in kind x every field value with list      *)
-(* lengths 0..2 over a 2-3 symbol alphabet, plus boundary descriptors      *)
+(* lengths 0..MaxList (2 quick, 3 thorough) over a 2-3 symbol alphabet,    *)
+(* plus boundary descriptors (configuration Boundary = TRUE)               *)
 (* (element length 255, totals just under 2^16; contents vary with Seed).  *)
 (* Each state is printed as a scenario (SCN) together with the buffer      *)
 (* sizes the harness has to try, and the model-level invariants relate the *)
